@@ -117,7 +117,7 @@ def build_c02(kinds, styles, want_choice, corruption, rng=None, sep_prob=0.0):
     return {'text': text, 'run': {}, 'expect': expect, 'desc': desc, 'groups': groups}
 
 
-C02_KINDS = ['assign', 'print', 'expr', 'nlstr', 'both', 'multi', 'multiexpr', 'compound', 'print2']
+C02_KINDS = ['assign', 'print', 'expr', 'nlstr', 'both', 'multi', 'multiexpr', 'compound', 'print2', 'eqobj']
 
 
 def c02_exhaustive(maxlen):
@@ -159,7 +159,7 @@ def c02_random(rng):
 
 
 # ------------------------------------------------------------------ C03
-EXC_KINDS = ['raise', 'printraise', 'callraise', 'emptyraise']
+EXC_KINDS = ['raise', 'printraise', 'callraise', 'emptyraise', 'falsyraise', 'quietraise', 'callquietraise']
 WANT_FORMS = ['none', 'exact', 'stack', 'wrongmsg', 'wrongtype', 'nontb', 'nontb_dots', 'nontb_hdronly', 'ellipsis', 'dotted', 'oldheader']
 
 
@@ -292,7 +292,7 @@ def directive_events():
 
 
 SHAPES = ['assign', 'multi', 'compound', 'decorated', 'print', 'tripstr', 'classdef', 'decorated2', 'gapmulti', 'gapcompound',
-          'decorated3', 'gapclass']
+          'decorated3', 'gapclass', 'multicomment']
 STYLES = ['new', 'new', 'old']
 
 
@@ -494,7 +494,7 @@ def build_c09(fault, pos, pre_want, multi, on_error='return', verbose=0, helper_
 # ------------------------------------------------------------------ C09 / C03 / C02: random composites
 RANDOM_FAULTS = ['wrong-output', 'wrong-output', 'wrong-output-marker', 'wrong-value', 'exception', 'exception',
                  'exception-nontb', 'exception-wrongtype', 'exception-wrongmsg', 'exception-ignorewant-inline',
-                 'called-exception', 'printraise', 'emptyraise', 'compile', 'badrepr', 'badrepr-stdout', 'tbwant-noraise']
+                 'called-exception', 'printraise', 'emptyraise', 'falsyraise', 'quietraise', 'callquietraise', 'wrong-eqobj', 'compile', 'badrepr', 'badrepr-stdout', 'tbwant-noraise']
 
 
 def c09_random(rng):
@@ -524,13 +524,18 @@ def c09_random(rng):
         g = gd.Group('expr', j, style=style)
         g.want = 'zzz9'
         kind, exc_type, at_want = 'gotwant', 'GotWantException', True
+    elif fault == 'wrong-eqobj':
+        g = gd.Group('eqobj', j, style=style)
+        g.want = 'E%d' % (j + 1)
+        kind, exc_type, at_want = 'gotwant', 'GotWantException', True
     elif fault == 'tbwant-noraise':
         g = gd.Group(rng.choice(['print', 'expr']), j, style=style)
         g.want = exc_want(rng.choice(['exact', 'stack']), 'ValueError', 'm%d' % j)
         kind, exc_type, at_want = 'gotwant', 'GotWantException', True
     elif fault in ('exception', 'exception-nontb', 'exception-wrongtype', 'exception-wrongmsg', 'exception-ignorewant-inline',
-                   'called-exception', 'printraise', 'emptyraise'):
-        ek = {'called-exception': 'callraise', 'printraise': 'printraise', 'emptyraise': 'emptyraise'}.get(fault, 'raise')
+                   'called-exception', 'printraise', 'emptyraise', 'falsyraise', 'quietraise', 'callquietraise'):
+        ek = {'called-exception': 'callraise', 'printraise': 'printraise', 'emptyraise': 'emptyraise', 'falsyraise': 'falsyraise',
+              'quietraise': 'quietraise', 'callquietraise': 'callquietraise'}.get(fault, 'raise')
         g = gd.Group(ek, j, style=style, inline=['+IGNORE_WANT'] if fault == 'exception-ignorewant-inline' else None)
         tname, msg = g.raises
         kind, exc_type = 'exception', tname
